@@ -32,7 +32,7 @@ Lemma parse_i64_digits ds : all_digits ds -> parse_i64 ds = match ds with [] => 
 Proof.
   unfold all_digits. intros H. destruct ds as [|d ds]; [reflexivity|].
   assert (is_digit d = true) as Hd by (cbn in H; apply andb_prop in H; tauto).
-  unfold parse_i64.
+  rewrite parse_i64_eq. unfold parse_i64_spec.
   assert (match d with 45 => option_map Z.opp (parse_digits ds) | 43 => parse_digits ds | _ => parse_digits (d :: ds) end = parse_digits (d :: ds)) as ->.
   { destruct d as [|p]; auto. destruct (Pos.eq_dec p 45) as [->|N1]; [discriminate|].
     destruct (Pos.eq_dec p 43) as [->|N2]; [discriminate|].
